@@ -182,7 +182,7 @@ def explore_config(args):
             if status == 'abort':
                 res['aborted'][type(r).__name__ + ':' + str(r)[:60]] += 1
                 if want_records and isinstance(r, BoundReached):
-                    records.append((list(eng.log), False))
+                    records.append((list(eng.log), False, None))
                 continue
             h, out = r
             res['paths'] += 1
@@ -198,7 +198,7 @@ def explore_config(args):
                 res['stopped_early'] = True
                 break
             if want_records:
-                records.append((list(eng.log), True))
+                records.append((list(eng.log), not getattr(h, 'truncated', False), out))
             # translation validation of the engine on this path
             if (res['paths'] - 1) % validate_every == 0 and res['validated'] < max_validate and not h.failures \
                     and getattr(mod, 'VALIDATE', True):
